@@ -32,7 +32,10 @@ RULE = ("scenarios: operation {init, re-key via sp[k]=v, re-key via update_state
         "fresh Project twice, without and with a persistent state point cache written before the operation, plus sampled DOUBLE faults (a second failing call later in the same run, "
         "e.g. inside a rollback or handler), plus FOLLOW-UP cases: a single fault that the operation handled "
         "(exception) leaving the pre-state on disk, then a further operation through the SAME job handle (sp[k]=v / doc[k]=v / init()), then a restart "
-        "— quick: every mutating call x {EIO, EACCES} x sp[k]=v plus one rotating follow-up; thorough: every call x every errno.  non-trivial: the operation performs >= 2 mutating calls (crash) or the "
+        "— quick: every mutating call x {EIO, EACCES} x sp[k]=v plus one rotating follow-up; thorough: every call x every errno; "
+        "a run of that plan whose injected error was SWALLOWED (normal return) is kept as a single-fault case; every rename of "
+        "every run also fails once with EXDEV.  Every case carries the tree the implementation leaves after the same operation "
+        "WITHOUT a fault: a faulted run that returns normally must leave exactly that tree.  non-trivial: the operation performs >= 2 mutating calls (crash) or the "
         "fault changes the outcome or the tree; distinct by (scenario, probe)")
 TRUSTED = [
     "the interposer (completeness self-check: replaying the trace on the pre-state reproduces the post-state byte for byte)",
